@@ -504,6 +504,12 @@ theorem Server.disconnect_WF (cfg : Cfg) {srv : Server} (h : srv.WF) (c : Nat) :
     rw [hle] at this
     exact Server.WF_of_sessions_eq this rfl rfl rfl rfl
 
+theorem Server.beforeDispatch_WF {srv : Server} (h : srv.WF) (k : Conn) (r : Req) : (srv.beforeDispatch k r).1.WF := by
+  unfold Server.beforeDispatch
+  split
+  · exact Server.WF_of_sessions_eq h rfl rfl rfl rfl
+  · exact h
+
 theorem step_WF (cfg : Cfg) {srv : Server} (h : srv.WF) (e : Event) : (step cfg srv e).1.WF := by
   unfold step
   cases e with
@@ -516,10 +522,16 @@ theorem step_WF (cfg : Cfg) {srv : Server} (h : srv.WF) (e : Event) : (step cfg 
     simp only []
     split
     · exact h
-    · split
-      · exact Server.WF_of_sessions_eq h rfl rfl rfl rfl
-      · have := Server.disconnect_WF cfg h c
-        rcases hd : srv.disconnect cfg c with ⟨a, b⟩
+    · rename_i k _
+      have hb : (srv.beforeDispatch k r).1.WF := by
+        unfold Server.beforeDispatch
+        split
+        · exact Server.WF_of_sessions_eq h rfl rfl rfl rfl
+        · exact h
+      split
+      · exact Server.WF_of_sessions_eq hb rfl rfl rfl rfl
+      · have := Server.disconnect_WF cfg hb c
+        rcases hd : (srv.beforeDispatch k r).1.disconnect cfg c with ⟨a, b⟩
         rw [hd] at this; exact this
   | handle c pick hint =>
     simp only []
